@@ -390,6 +390,7 @@ def cbmc_job(u, sp, job, workdir, tier):
         if r["status"] == "FAILURE" and "trace" in r:
             o["trace_vals"] = trace_values(r["trace"])
             o["trace_tail"] = trace_tail(r["trace"])
+            o["prestate"] = trace_prestate(r["trace"])
         res["obligations"].append(o)
     if job.get("loops") and loop_step == 0:
         res["reason"] = "loop contract silently dropped: no loop-invariant step obligation generated"
@@ -413,7 +414,7 @@ def cbmc_job(u, sp, job, workdir, tier):
 def trace_values(trace):
     vals = []
     for st in trace:
-        if st.get("stepType") == "assignment" and st.get("lhs") == "vt_trace_val":
+        if st.get("stepType") == "assignment" and st.get("lhs") == "vt_trace_val" and not st.get("hidden"):
             v = st.get("value", {})
             b = v.get("binary")
             if b is not None:
@@ -424,6 +425,24 @@ def trace_values(trace):
                 except Exception:
                     vals.append(0)
     return vals
+
+
+def trace_prestate(trace):
+    """argument values and the fields of the objects is_fresh created for an enforced contract"""
+    out = []
+    for st in trace:
+        if st.get("stepType") != "assignment":
+            continue
+        fn = st.get("sourceLocation", {}).get("function", "")
+        lhs = st.get("lhs", "")
+        v = st.get("value", {})
+        d = v.get("data")
+        if d is None or "$pad" in lhs:
+            continue
+        if (fn == "vt_entry" and re.match(r"a\d+$", lhs)) or (fn == "__CPROVER_contracts_is_fresh" and lhs.startswith("dynamic_object") and "." in lhs) or \
+                (lhs in ("vt_k", "vt_n") and not st.get("hidden")):
+            out.append("%s = %s" % (lhs, d))
+    return out[:80]
 
 
 def trace_tail(trace, n=25):
@@ -565,6 +584,10 @@ def check(prop, tier, only_jobs=None, keep=False):
                 fh.write("# harness: %s\n" % (harness or "-"))
                 for v in o.get("trace_vals", []):
                     fh.write("%d\n" % v)
+                if o.get("prestate"):
+                    fh.write("# --- counterexample pre-state (arguments a<i> and the objects is_fresh created) ---\n")
+                    for t in o["prestate"]:
+                        fh.write("#   %s\n" % t)
                 fh.write("# --- verifier trace (tail) ---\n")
                 for t in o.get("trace_tail", []):
                     fh.write("#   %s\n" % t)
